@@ -15,5 +15,9 @@ Proof. vm_compute. reflexivity. Qed.
 Lemma no_noexcept_false : forallb (fun d => negb (String.eqb (dt_noexcept_false d) "yes")) dtors = true.
 Proof. vm_compute. reflexivity. Qed.
 
+(* the same for functions declared noexcept: the ones that call possibly-throwing code are the listed ones *)
+Lemma noexcept_callers_expected : noexcept_callers noexcept_fns = expected_noexcept_callers.
+Proof. vm_compute. reflexivity. Qed.
+
 Lemma dtors_not_vacuous : existsb (fun d => negb (may_throw d)) dtors = true /\ existsb may_throw dtors = true.
 Proof. vm_compute. split; reflexivity. Qed.
